@@ -494,7 +494,7 @@ def run(chk):
     chk.assumptions = ["qn_list elements and Op.qn are numpy arrays (annotation List[np.ndarray] in Op.__init__)",
                        "Op(symbol, dof, factor, qn) is the only constructor of symbolic operators"]
     chk.rule("eq-hash-key", "Op defines both __eq__ and __hash__, and every field read by __hash__ is read by __eq__ on both operands", 2)
-    chk.rule("array-truth", "a quantum-number ndarray compared with ==/!=/< (or used bare) in a boolean context is reduced by np.all/np.any", 2)
+    chk.rule("array-truth", "a quantum-number ndarray compared with ==/!=/< (or used bare) in a boolean context is reduced by np.all/np.any", 1)
     chk.rule("qn-carry", "Op(...) whose symbol derives from an existing Op's symbol/split_symbol passes an explicit qn", 9)
     chk.rule("product-order", "the four aggregations of Op.product iterate the same list in the same direction, and Op(...) receives them in (symbol, dof, factor, qn) positions", 2)
     chk.rule("operand-order", "abstract run of Op / OpSum / list arithmetic (*, +, -, unary -, +=, /): every term present once, operands in order, signs and scalar factors as written", 20)
@@ -614,12 +614,6 @@ def run(chk):
                 and v.args[0].elt.attr == "factor" and len(v.args[0].generators) == 1 and not v.args[0].generators[0].ifs
         chk.ob("factor-algebra", "Op.product", ok, prod.where, unparse(v), "product of the operands' factors", line=n.lineno,
                detail="factor of a product is not the product of the factors")
-    simp = src.func(OP, "OpSum.simplify")
-    F = sp.Symbol("sum_identical")
-    for n, fa in ctor_factor(simp):
-        v = factor_expr(fa, {"op.factor": f, "__sum_factor__": F})
-        chk.ob("factor-algebra", "OpSum.simplify[merge]", sp.simplify(v - (f + F)) == 0, simp.where, str(v), "f + sum of merged factors",
-               line=n.lineno, detail="merged term's factor is not the sum of the merged factors")
     simplify_order_rule(chk, src)
     # linear-structure dunders: evaluate the returned expression symbolically (self -> A, other -> B)
     A, B = sp.symbols("A B")
@@ -667,23 +661,44 @@ def run(chk):
 
 
 def simplify_order_rule(chk, src):
-    """OpSum.simplify: the tolerance is applied to merged coefficients, never to the individual terms before merging"""
-    chk.rule("filter-after-merge", "in OpSum.simplify every use of the tolerance `atol` comes after the loop that merges equal terms", 1)
+    """abstract run of OpSum.simplify on sums of stand-in terms (a term = operator string after identity squeezing + an exact coefficient): equal operator strings are
+    merged by adding their coefficients, in the order of first appearance; the tolerance is applied to the merged coefficients only - several copies of one term, each
+    below atol but summing above it, survive; terms that cancel or stay below the tolerance disappear; nothing else changes"""
+    from fractions import Fraction as Fr
+    from ..syminterp import SymInterp, Sym
+    chk.rule("filter-after-merge", "OpSum.simplify (abstract run): equal terms merged by summing coefficients, tolerance applied after merging, order of first appearance", 3)
     fi = src.func(OP, "OpSum.simplify")
-    tol = fi.params()[1]
-    loops = [n for n in fi.node.body if isinstance(n, ast.While)]
-    if len(loops) != 1:
-        raise AnalysisError(f"{fi.where}: merge loop (`while old_opsum:`) not found")
-    end = loops[0].end_lineno
-    uses = [n for n in ast.walk(fi.node) if isinstance(n, ast.Name) and n.id == tol and isinstance(n.ctx, ast.Load)]
-    early = [n.lineno for n in uses if n.lineno <= end]
-    chk.ob("filter-after-merge", "OpSum.simplify", bool(uses) and not early, fi.where, {"uses of atol at lines": [n.lineno for n in uses], "merge loop ends at": end},
-           "all uses after the merge loop", line=early[0] if early else fi.node.lineno,
-           detail="terms are dropped by the tolerance before equal terms are merged: several copies of one term, each below atol but summing above it, "
-                  "disappear and the operator changes by more than the stated tolerance")
-    merged = [n for n in ast.walk(loops[0]) if isinstance(n, ast.Call) and unparse(n.func).endswith("same_term")]
-    chk.ob("filter-after-merge", "merge criterion is Op.same_term (symbol and DoFs after identity squeezing)", len(merged) == 1 and "squeeze_identity" in unparse(fi.node), fi.where,
-           [unparse(m) for m in merged], "op.same_term(other_op) on squeezed operators")
+
+    class Term(Sym):
+        def __init__(self, word, factor, squeezed=True):
+            super().__init__(f"{factor}*{word}")
+            self.word, self.factor, self.squeezed = word, factor, squeezed
+            self.symbol, self.dofs, self.qn_list = ("symbol", word), ("dofs", word), ("qn", word)
+
+        def squeeze_identity(self):
+            return Term(self.word.replace(" I", "").replace("I ", "") or "I", self.factor)
+
+        def same_term(self, o):
+            return self.word == o.word
+
+    class OpS(list):
+        pass
+    cases = {
+        "duplicates and cancellation": ([("X Y", Fr(2)), ("Z", Fr(3)), ("X Y", Fr(-2)), ("Z", Fr(1, 2)), ("W", Fr(5))], Fr(0), [("Z", Fr(7, 2)), ("W", Fr(5))]),
+        "copies below the tolerance summing above it": ([("A", Fr(6, 10 ** 11)), ("B", Fr(1)), ("A", Fr(6, 10 ** 11)), ("C", Fr(1, 10 ** 12))], Fr(1, 10 ** 10), [("A", Fr(12, 10 ** 11)), ("B", Fr(1))]),
+        "identity factors squeezed before comparing": ([("X I Y", Fr(1, 2)), ("X Y", Fr(1, 2)), ("Z", Fr(1, 10 ** 4))], Fr(1, 10 ** 3), [("X Y", Fr(1))]),
+    }
+    for name, (terms, atol, want) in cases.items():
+        it = SymInterp(src, None, {"OpSum": lambda x=(): OpS(x), "Op": lambda symbol, dofs, factor=1, qn=None: Term(symbol[1], factor), "np": Sym("np", abs=abs, isclose=lambda a, b, **k: a == b, allclose=lambda a, b, **k: a == b),
+                                   "abs": abs, "sum": lambda xs, start=0: sum(xs, start)})
+        it.max_depth = 8
+        me = OpS([Term(w, f) for w, f in terms])
+        before = [(t.word, t.factor) for t in me]
+        res = it.call_function(fi, [me, atol])
+        got = [(t.word, t.factor) for t in res] if isinstance(res, list) else repr(res)
+        ok = got == want and [(t.word, t.factor) for t in me] == before and res is not me
+        chk.ob("filter-after-merge", f"OpSum.simplify[{name}]", ok, fi.where, str(got)[:200], str(want)[:200], line=fi.node.lineno,
+               detail="the simplified sum must be the same operator up to terms whose *merged* coefficient is within the tolerance; the receiver is not changed")
 
 
 def run_thorough(chk):
